@@ -77,6 +77,13 @@ type (
 		// invocation sleeps 10 ms. The flow is a function of the flow spec and
 		// the filter results only, never of time: observables do not depend on it.
 		Deadline string `json:"deadline"`
+		// GFPrev (gf mode only): the GlobalFilter that handles is a SECOND
+		// generation: a first generation is Init-ed from (PrevBefore, PrevAfter),
+		// then the handling one Inherits from it with (Before, After). The walk is
+		// the reference walk over the handling generation's flows only.
+		GFPrev     bool       `json:"gfprev"`
+		PrevBefore *VfC02Spec `json:"prev_before"`
+		PrevAfter  *VfC02Spec `json:"prev_after"`
 		Script []string `json:"script"` // result of the n-th filter invocation ("" beyond the end)
 	}
 
@@ -90,6 +97,11 @@ type (
 		Calls    [][4]string `json:"calls"`    // per filter invocation: pipeline name, filter instance name, namespace marker seen, result returned
 		Stats    [][2]string `json:"stats"`    // stats tag with durations stripped: alias, result
 		TagOK    bool        `json:"tag_ok"`   // the tag had the expected shape
+		// Life (GFPrev cases): lineage of the filter instances of the handling
+		// GlobalFilter generation and close counts of the previous one:
+		// "new:<pipeline>/<filter><-init", "new:<pipeline>/<filter><-<pipeline>/<filter>",
+		// "old:<pipeline>/<filter> closed <n>", in spec order (before, after).
+		Life []string `json:"life"`
 		HasRes   bool        `json:"has_result"`
 		Result   string      `json:"result"`
 	}
@@ -101,7 +113,9 @@ type (
 
 	// VfC02GF runs main through a real GlobalFilter built from gfYAML. It
 	// reports whether the GlobalFilter spec was accepted.
-	VfC02GF func(gfYAML string, gen int, main *Pipeline, ctx *context.Context) (accepted bool)
+	// prevYAML != "": a first generation is Init-ed from prevYAML (skipped if that
+	// spec is rejected) and the handling generation Inherits from it.
+	VfC02GF func(gfYAML, prevYAML string, gen int, main *Pipeline, ctx *context.Context) (accepted bool)
 )
 
 // ---------------------------------------------------------------------------
@@ -120,8 +134,11 @@ type (
 	}
 
 	vfC02Filter struct {
-		kind *filters.Kind
-		spec *vfC02FSpec
+		kind   *filters.Kind
+		spec   *vfC02FSpec
+		tag    string // GlobalFilter generation that created the instance ("g0", "g1", "")
+		origin string // "init", or "<pipeline>/<filter>" of the instance it inherited from
+		closed int
 	}
 
 	// vfC02Req is a marker request planted in one namespace of the context.
@@ -133,13 +150,65 @@ type (
 
 var vfC02Cur *vfC02State
 
+// instances created since the last reset, and the generation tag given to new ones
+var (
+	vfC02Instances []*vfC02Filter
+	vfC02Tag       string
+)
+
+// VfC02SetTag names the GlobalFilter generation that is being built.
+func VfC02SetTag(tag string) { vfC02Tag = tag }
+
+func vfC02FindInstance(tag, pipeline, name string) *vfC02Filter {
+	for _, f := range vfC02Instances {
+		if f.tag == tag && f.spec.Pipeline() == pipeline && f.spec.Name() == name {
+			return f
+		}
+	}
+	return nil
+}
+
+// vfC02Life projects the lifecycle of a GFPrev case (see VfC02Obs.Life).
+func vfC02Life(in *VfC02In) []string {
+	out := []string{}
+	side := func(tag, kind, pname string, s *VfC02Spec) {
+		if s == nil {
+			return
+		}
+		for _, d := range s.Decls {
+			f := vfC02FindInstance(tag, pname, d.Name)
+			if f == nil {
+				continue
+			}
+			if kind == "new" {
+				out = append(out, "new:"+pname+"/"+d.Name+"<-"+f.origin)
+			} else {
+				out = append(out, fmt.Sprintf("old:%s/%s closed %d", pname, d.Name, f.closed))
+			}
+		}
+	}
+	side("g1", "new", "before", in.Before)
+	side("g1", "new", "after", in.After)
+	side("g0", "old", "before", in.PrevBefore)
+	side("g0", "old", "after", in.PrevAfter)
+	return out
+}
+
 func (f *vfC02Filter) Name() string                  { return f.spec.Name() }
 func (f *vfC02Filter) Kind() *filters.Kind           { return f.kind }
 func (f *vfC02Filter) Spec() filters.Spec            { return f.spec }
-func (f *vfC02Filter) Init()                         {}
-func (f *vfC02Filter) Inherit(prev filters.Filter)   {}
+func (f *vfC02Filter) Init()                         { f.origin = "init" }
+func (f *vfC02Filter) Inherit(prev filters.Filter) {
+	f.origin = "<foreign>"
+	if p, ok := prev.(*vfC02Filter); ok && p != nil {
+		f.origin = p.spec.Pipeline() + "/" + p.spec.Name()
+		if p.tag != "g0" {
+			f.origin += "@" + p.tag
+		}
+	}
+}
 func (f *vfC02Filter) Status() interface{}           { return nil }
-func (f *vfC02Filter) Close()                        {}
+func (f *vfC02Filter) Close()                        { f.closed++ }
 func (f *vfC02Filter) Handle(ctx *context.Context) string {
 	st := vfC02Cur
 	r := ""
@@ -180,7 +249,9 @@ func VfC02Register() {
 			DefaultSpec: func() filters.Spec { return &vfC02FSpec{} },
 		}
 		k.CreateInstance = func(spec filters.Spec) filters.Filter {
-			return &vfC02Filter{kind: k, spec: spec.(*vfC02FSpec)}
+			f := &vfC02Filter{kind: k, spec: spec.(*vfC02FSpec), tag: vfC02Tag}
+			vfC02Instances = append(vfC02Instances, f)
+			return f
 		}
 		filters.Register(k)
 	}
@@ -273,6 +344,8 @@ func VfC02FillOracles(in *VfC02In) {
 	fill(&in.Main)
 	fill(in.Before)
 	fill(in.After)
+	fill(in.PrevBefore)
+	fill(in.PrevAfter)
 }
 
 // ---------------------------------------------------------------------------
@@ -413,13 +486,15 @@ func vfC02Build(s *VfC02Spec, name string, raw bool, gen int) (p *Pipeline, acce
 }
 
 // VfC02GFYAML renders the GlobalFilter spec of a case.
-func VfC02GFYAML(in *VfC02In) string {
+func VfC02GFYAML(in *VfC02In) string { return vfC02GFYAML(in.Before, in.After) }
+
+func vfC02GFYAML(before, after *VfC02Spec) string {
 	m := map[string]interface{}{"name": "gf", "kind": "GlobalFilter"}
-	if in.Before != nil {
-		m["beforePipeline"] = vfC02SpecMap(in.Before, true)
+	if before != nil {
+		m["beforePipeline"] = vfC02SpecMap(before, true)
 	}
-	if in.After != nil {
-		m["afterPipeline"] = vfC02SpecMap(in.After, true)
+	if after != nil {
+		m["afterPipeline"] = vfC02SpecMap(after, true)
 	}
 	return string(yamltool.Marshal(m))
 }
@@ -451,6 +526,8 @@ func VfC02Run(in *VfC02In, gf VfC02GF) (obs VfC02Obs) {
 
 	st := &vfC02State{script: in.Script}
 	vfC02Cur = st
+	vfC02Instances, vfC02Tag = nil, ""
+	obs.Life = []string{}
 	defer func() { vfC02Cur = nil }()
 	defer func() {
 		if r := recover(); r != nil {
@@ -512,9 +589,16 @@ func VfC02Run(in *VfC02In, gf VfC02GF) (obs VfC02Obs) {
 		if gf == nil {
 			panic("verif: gf mode without a GlobalFilter runner")
 		}
-		if !gf(VfC02GFYAML(in), in.Gen, ps[0], ctx) {
+		prevYAML := ""
+		if in.GFPrev {
+			prevYAML = vfC02GFYAML(in.PrevBefore, in.PrevAfter)
+		}
+		if !gf(VfC02GFYAML(in), prevYAML, in.Gen, ps[0], ctx) {
 			obs.NewSpec = false
 			return
+		}
+		if in.GFPrev {
+			obs.Life = vfC02Life(in)
 		}
 	default:
 		panic("verif: unknown mode " + in.Mode)
